@@ -88,6 +88,7 @@ impl World {
         assert_eq!(types.len(), NT);
         let (tx, ev_rx) = mpsc::channel(1000);
         let f = VerifFetcher::new(me, tx);
+        LAGGED.with(|l| l.borrow_mut().clear());
         let mut w = World { me, f, ev_rx, keys, dists, filler, holders, filler_holder, types, padded };
         if padded {
             let empty = HashMap::new();
@@ -229,7 +230,14 @@ async fn step(w: &mut World, t: &mut Trace, s: &Value, src: &str, exp: Option<&V
 }
 
 /// Random behaviour generated by the driver itself (bigger universe than the model-checked one).
+thread_local! { static LAGGED: std::cell::RefCell<Vec<(usize, usize)>> = std::cell::RefCell::new(vec![]); }
 fn random_step(w: &World, rng: &mut StdRng, held: &mut Vec<usize>) -> Value {
+    // the index catches up with an earlier put (no fetcher call)
+    if rng.gen_bool(0.4) {
+        if let Some((k, t)) = LAGGED.with(|l| { let mut l = l.borrow_mut(); if l.is_empty() { None } else { Some(l.remove(0)) } }) {
+            held[k - 1] = t;
+        }
+    }
     let og = w.entries(w.f.on_going_fetches()).0;
     let tf = w.entries(w.f.to_be_fetched()).0;
     loop {
@@ -254,7 +262,13 @@ fn random_step(w: &World, rng: &mut StdRng, held: &mut Vec<usize>) -> Value {
                     (rng.gen_range(1..=NK), rng.gen_range(1..=NT))
                 };
                 if held[k - 1] == t { continue; }
-                held[k - 1] = t;
+                // the store's index may list the record only later (PutLocalRecord .. AddLocalRecordAsStored):
+                // advertisements in between are shown the old held map
+                if rng.gen_bool(0.3) {
+                    LAGGED.with(|l| l.borrow_mut().push((k, t)));
+                } else {
+                    held[k - 1] = t;
+                }
                 return json!({"ev":"NotifyPut","k":k,"t":t,"held":held.clone()});
             }
             65..=72 => {
